@@ -2,7 +2,8 @@
 import vlib
 
 RULE = ("(M+G) exhaustive TLC run of Projection.tla over the quick constants (every set of <=2 expressions from the menu in "
-        "every parse order, residue, every stream of 3 results over 2 config keys x 2 values with both Config orders), "
+        "every parse order, residue, every stream of 3 results over 2 config keys x 2 values with both Config orders; and a second "
+        "exhaustive run with 3 config keys arriving in every order under '.config@alpha,c1@num' and '.config,.name', where fields follow the growing group), "
         "invariants KeyEq, ExclusionSound, NoLoss, MatchesDocumentedOrder, StrictTotal; every complete behaviour is printed "
         "as a replay case with the declarative expectation and run on a real ProjectionParser/Projection; plus seeded "
         "-simulate behaviours over the full menu (10 expressions, <=3 per parser), 3 config keys, 5 value tokens "
@@ -15,6 +16,9 @@ def run(ctx, focus):
     q = ctx.quick
     r = ctx.tlc("Projection_gen.tla", "Projection_gen_quick.cfg", timeout=1500, label="bfs+gen")
     cases = r.printed_json("case")
+    # the .config group growing while other fields follow it: 3 config keys arriving in every order
+    rg = ctx.tlc("Projection_gen.tla", "Projection_gen_grow.cfg", timeout=1500, label="bfs+gen")
+    cases += rg.printed_json("case")
     nsim = 60 if q else 800
     r2 = ctx.tlc("Projection_gen.tla", "Projection_gen_sim.cfg", timeout=2400, simulate=nsim, depth=12, label="simulate+gen",
                  workers=8 if q else 16)
